@@ -98,3 +98,85 @@ func leanGoFacts(facts []goFact, ok bool) string {
 	b.WriteString("]\n")
 	return b.String()
 }
+
+// pageTurn: an iterator's Next method that sends a further request (turns the page).  Closed
+// says whether a Close() on something the iterator holds (the current response) precedes the
+// request in the text of Next: Serve waits for the current response to be closed before it
+// reads anything else, so requesting the next page first can never be answered.
+type pageTurn struct {
+	Fn     string
+	Callee string
+	Closed bool
+}
+
+var requestCallee = map[string]bool{"Fetch": true, "FetchIQ": true, "FetchItems": true, "FetchItemsIQ": true, "SendIQ": true,
+	"SendIQElement": true, "IterIQ": true, "IterIQElement": true, "UnmarshalIQ": true, "UnmarshalIQElement": true, "EncodeIQ": true, "EncodeIQElement": true}
+
+func pageTurnsOf(l *loaded, filter func(string) bool) []pageTurn {
+	var out []pageTurn
+	for i, file := range l.Files {
+		if filter != nil && !filter(l.Names[i]) {
+			continue
+		}
+		for _, d := range file.Decls {
+			fd, ok := d.(*ast.FuncDecl)
+			if !ok || fd.Body == nil || fd.Recv == nil || fd.Name.Name != "Next" || len(fd.Recv.List) == 0 || len(fd.Recv.List[0].Names) == 0 {
+				continue
+			}
+			recv := fd.Recv.List[0].Names[0].Name
+			name := l.Pkg.Name() + "." + recvName(fd) + fd.Name.Name
+			var closes []token.Pos
+			ast.Inspect(fd.Body, func(n ast.Node) bool {
+				if call, ok := n.(*ast.CallExpr); ok {
+					if sel, ok := call.Fun.(*ast.SelectorExpr); ok && sel.Sel.Name == "Close" && strings.HasPrefix(types.ExprString(sel.X), recv+".") {
+						closes = append(closes, call.Pos())
+					}
+				}
+				return true
+			})
+			ast.Inspect(fd.Body, func(n ast.Node) bool {
+				call, ok := n.(*ast.CallExpr)
+				if !ok {
+					return true
+				}
+				callee := ""
+				switch f := call.Fun.(type) {
+				case *ast.Ident:
+					callee = f.Name
+				case *ast.SelectorExpr:
+					callee = f.Sel.Name
+				}
+				if !requestCallee[callee] {
+					return true
+				}
+				closed := false
+				for _, p := range closes {
+					if p < call.Pos() {
+						closed = true
+					}
+				}
+				out = append(out, pageTurn{Fn: name, Callee: callee, Closed: closed})
+				return true
+			})
+		}
+	}
+	return out
+}
+
+func leanPageTurns(pts []pageTurn, ok bool) string {
+	var b strings.Builder
+	b.WriteString("/-- iterators whose Next sends a further request: (method, callee, is something the iterator holds closed before) -/\n")
+	if !ok {
+		b.WriteString("def pageTurns : Option (List (String × String × Bool)) := none\n")
+		return b.String()
+	}
+	b.WriteString("def pageTurns : Option (List (String × String × Bool)) := some [")
+	for i, p := range pts {
+		if i > 0 {
+			b.WriteString(", ")
+		}
+		fmt.Fprintf(&b, "(%q, %q, %v)", p.Fn, p.Callee, p.Closed)
+	}
+	b.WriteString("]\n")
+	return b.String()
+}
